@@ -32,6 +32,7 @@ FORMS = [
     ('{0}+{1}+{2}', 3, lambda a, b, c: a + b + c),
     ('{0}^2', 1, lambda a: a ** 2),
     ('{0}-1', 1, lambda a: a - 1),
+    ('1/({0}-1.1)', 1, lambda a: 1.0 / (a - 1.1)),     # a pole exactly at v0's first scheduled value
     ('3', 0, lambda: 3.0),
     ('pi*2', 0, lambda: math.pi * 2),
 ]
@@ -61,8 +62,13 @@ class C13World(object):
         avail = list(ind) + list(numbered)
         variant = rng.choices(['dag', 'cycle', 'dangling', 'selfcycle', 'numbered_only_in_dep'],
                               [7, 1, 1, 0.5, 0.7])[0]
+        pole_at = rng.randrange(n_dep) if (n_dep and rng.random() < 0.08) else None
         for j in range(n_dep):
             fi = rng.randrange(len(FORMS))
+            while FORMS[fi][0].startswith('1/('):
+                fi = rng.randrange(len(FORMS))
+            if j == pole_at:
+                fi = [k for k, f in enumerate(FORMS) if f[0].startswith('1/(')][0]
             text, arity, _ = FORMS[fi]
             pool = avail + [d['name'] for d in deps]
             # bias towards recent dependents: chains and diamonds
@@ -76,6 +82,8 @@ class C13World(object):
                 # keep the author's configuration well-defined: divide by an independent variable
                 # only (a dependent such as v0/v0-1 would be zero)
                 ops[1] = rng.choice(ind)
+            if FORMS[fi][0].startswith('1/('):
+                ops = [ind[0]]          # v0's first scheduled value is exactly 1.1
             deps.append({'name': 'd%d' % j, 'form': fi, 'ops': ops})
         if vector and deps:
             deps.append({'name': 'dw', 'form': -1, 'ops': ['w']})
@@ -153,7 +161,8 @@ class C13World(object):
                     if 'order' in e and isinstance(e['order'], list):
                         e['order'] = [ren(x) for x in e['order']]
                         e['sf_order'] = [ren(x) for x in e['sf_order']]
-        return {'world': 'c13', 'uconst': uconst, 'nbase': nbase, 'ind': ind, 'numbered': numbered, 'vector': vector, 'deps': deps,
+        pole = any(FORMS[d['form']][0].startswith('1/(') for d in deps if d['form'] >= 0)
+        return {'world': 'c13', 'uconst': uconst, 'nbase': nbase, 'pole': pole, 'ind': ind, 'numbered': numbered, 'vector': vector, 'deps': deps,
                 'bad': bad, 'samples': samples, 'shadow_e': shadow_e, 'events': events, 'collide': collide,
                 'two_answers': rng.random() < 0.15, 'fault_free': bad is None}
 
@@ -300,7 +309,7 @@ class Run(object):
             self.violate('construct', i, 'valid DAG configuration refused: %s' % short(o_b))
             return o_b
         g, student = self.build(ev)
-        if ev.get('bad_instance'):
+        if ev.get('bad_instance') and not j.get('pole'):
             # not a numbered instance (leading zeros, sign, case ...): must be an undefined variable
             seams.seed_lib(ev['subseed'])
             bad_name = ev['bad_instance']
@@ -334,6 +343,11 @@ class Run(object):
                 self.bump(self.probes, '%s dependency diagnosed' % j['bad'])
             return o
         if o['k'] != 'ret':
+            if j.get('pole') and o['fam'] == 'config':
+                # the author's dependent formula has a pole at one of the scheduled values: refusing
+                # is fine; handing out inconsistent values instead would not be
+                self.bump(self.probes, 'pole in a dependent formula refused')
+                return o
             self.violate('complete', i, 'acyclic configuration raised %s ; %s' % (short(o), desc))
             return o
         n = j['samples']
